@@ -40,6 +40,11 @@ type ResponseRecorder struct {
 	status   int
 	size     int
 	start    time.Time
+
+	// wroteHeader is set once the header has been committed (explicitly
+	// or by the first write); a later WriteHeader cannot change the status
+	// the client received, so it does not change the recorded one either
+	wroteHeader bool
 }
 
 // NewResponseRecorder makes and returns a new ResponseRecorder.
@@ -57,13 +62,18 @@ func NewResponseRecorder(w http.ResponseWriter) *ResponseRecorder {
 // WriteHeader records the status code and calls the
 // underlying ResponseWriter's WriteHeader method.
 func (r *ResponseRecorder) WriteHeader(status int) {
-	r.status = status
+	if !r.wroteHeader {
+		r.status = status
+		// informational (1xx) headers other than 101 do not commit the response
+		r.wroteHeader = status >= 200 || status == http.StatusSwitchingProtocols
+	}
 	r.ResponseWriterWrapper.WriteHeader(status)
 }
 
 // Write is a wrapper that records the size of the body
 // that gets written.
 func (r *ResponseRecorder) Write(buf []byte) (int, error) {
+	r.wroteHeader = true
 	n, err := r.ResponseWriterWrapper.Write(buf)
 	if err == nil {
 		r.size += n
